@@ -6,13 +6,15 @@ E1 on the real bodies, operators as records of the REAL classes (attribute dicti
     the body (Operator: `_data` through copy.copy, `_hyperparameters` a new dict with the same values; composites copy every operand;
     symbolic operators copy their base); deep copies share no mutable sub-object and copy a sub-object that is referenced twice ONCE
     (the memo is registered and passed on); the original is untouched.
-(2) `cls._unflatten(*op._flatten())` for Operator, CompositeOp, Sum, Adjoint, Controlled, Pow, SProd, Exp, LinearCombination,
-    ChangeOpBasis and MeasurementProcess: the constructor receives exactly the original's data / wires / hyperparameters / operands in
+(2) `cls._unflatten(*op._flatten())` for Operator, CompositeOp, Sum, Adjoint, Controlled, Pow, SProd, Exp and MeasurementProcess
+    (LinearCombination: native stand-in only): the constructor receives exactly the original's data / wires / hyperparameters / operands in
     order (the constructor call is observed; that the constructor then reproduces the operator is the constructors' own contract,
     exercised by the bounded stand-in).
 (4) bind_new_parameters overloads: the new operator is built from EXACTLY the new parameters in order, every other constructor argument
-    is the original's; composite overloads hand each operand the next `num_params` parameters (1..3 operands, symbolic counts and a
-    parameter sequence of symbolic length); the input operator is untouched.
+    is the original's; the composite overload hands each operand the next `num_params` parameters -- for 1..3 operands AND for a
+    symbolic number of operands with a loop invariant over the running sum POS(i) (the slices [POS(j), POS(j+1)) partition the
+    parameter sequence: every parameter used exactly once, in order); the input operator is untouched.
+Every E1 case has a native counterpart (real operators through the real method, same conditions) used to replay counterexamples.
 (5) MeasurementProcess copy / flatten round trip (obs / mv / eigvals / wires-only variants).
 Bounded stand-in: real operators from a generator table through copy / deepcopy / pickle / pytree flatten-unflatten /
 bind_new_parameters, compared with qp.equal, hash and np.shares_memory.
@@ -64,8 +66,10 @@ def build(tier, seed):
     plan.size_bounds = ["operands of composites: 1..3; data tuples: 0..3 parameters; hyperparameter dictionaries with 2 keys; "
                         "native stand-in: a table of about 45 operator instances"]
     plan.unverified = ["JAX pytree registration and capture-primitive binding", "pytrees.flatten / unflatten recursion (native stand-in only)",
-                       "Operator2._flatten/_unflatten (bound-argument bookkeeping)", "overloads of bind_new_parameters that are defined under a reused "
-                       "name (`_`, the second bind_new_parameters_adjoint) or need template internals: HilbertSchmidt, QSVT, Select, AngleEmbedding",
+                       "Operator2._flatten/_unflatten (bound-argument bookkeeping)", "bind_new_parameters overloads in E1: the singledispatch base (try/except constructor fallback), Operator2 dynamic arguments, "
+                       "LinearCombination, parametric controlled ops, `_` (TrotterProduct), both bind_new_parameters_adjoint, identity, copy, projector, "
+                       "HilbertSchmidt, QSVT, Select, AngleEmbedding (native stand-in instances only where the table has one)",
+                       "ChangeOpBasis / LinearCombination / Evolution flatten and copy overrides (LinearCombination natively only)",
                        "that every operator class's constructor accepts its own flattened form (bounded stand-in over the table only)"]
     contracts = []
     cell = {}
@@ -103,8 +107,6 @@ def build(tier, seed):
         if isinstance(v, Rec):
             if memo is not None and id(v) in memo:
                 return memo[id(v)]
-            if "__deepcopy__" in v.cls.methods and memo is not None and not cell.get("in_deepcopy_of") is v:
-                pass
             r = Rec(v.cls, {})
             if memo is not None:
                 memo[id(v)] = r
@@ -532,8 +534,6 @@ def build(tier, seed):
              sorted(k) == ["control_values", "control_wires", "work_wire_type", "work_wires"] and all(same(k[j], op.f[j]) for j in k))
     bnp_case("bind_new_parameters_conditional", "Conditional(deepcopy(meas_val), bind(base, params))", with_base,
              lambda op, p, cls, a, k: cls == "Conditional" and len(a) == 2 and not k and same(a[0], op.f["meas_val"]) and whole(a[1], op.f["base"], p))
-    bnp_case("bind_new_parameters_projector", "Projector(*params, wires=wires)", with_base,
-             lambda op, p, cls, a, k: False, size_bounded=True) if False else None
 
     def hp_fields(ctx):
         f = with_base(ctx)
@@ -694,7 +694,6 @@ def build(tier, seed):
         {"op": sym_op_type(), "params": PAX}, ghost=ghost, requires=lambda a: z3.And(*pos_axioms(a.op.f["operands"], a.params)) if isinstance(a.op, Rec) else True,
         ensures=sym_post, loops={0: LoopSpec(sym_inv, types={"new_operands": SeqT(RecT("BoundOp"), ax=True), "params": PAX})},
         native_gen=native_skip, native_call=scenario("bind:composite_op"), native_raw=True)]))
-    cell["pos_lemmas"] = None
     pj, pk, cnt = z3.Ints("lj lk lcnt")
     plan.add(lemma(PID, "partition/POS is monotone: induction step", [pj, pk, cnt], POS(pj) <= POS(pk + 1),
                    assumptions=[POS(pj) <= POS(pk), cnt >= 0, POS(pk + 1) == POS(pk) + cnt]))
